@@ -160,7 +160,13 @@ func (fs *ReaderFS) readErr(r io.Reader) error {
 	case err := <-errs:
 		return err
 	case <-done:
-		return nil
+		// an error can arrive together with the completion. make sure it's not dropped when this case is picked
+		select {
+		case err := <-errs:
+			return err
+		default:
+			return nil
+		}
 	}
 }
 
